@@ -22,11 +22,33 @@ type batchCase struct {
 	Fields []modbus.Field `json:"fields"`
 	// Target 0..7: fc1 tcp, fc1 rtu, fc2 tcp, fc2 rtu, fc3 tcp, fc3 rtu, fc4 tcp, fc4 rtu
 	Target int `json:"target"`
+	// Caller: what the caller does with the slice it handed to AddAll: 0 nothing | 1 reuses it afterwards (overwrites every element
+	// and appends to it: the slice has spare capacity) | 2 adds the fields with two AddAll calls (first third, then the rest) and
+	// then overwrites both slices. The builder must have taken copies.
+	Caller int `json:"caller,omitempty"`
 }
 
 func build(c batchCase) ([]modbus.BuilderRequest, error) {
-	in := append([]modbus.Field(nil), c.Fields...)
-	b := modbus.NewRequestBuilder("", 0).AddAll(in)
+	in := make([]modbus.Field, len(c.Fields), len(c.Fields)+4)
+	copy(in, c.Fields)
+	b := modbus.NewRequestBuilder("", 0)
+	if c.Caller == 2 {
+		k := len(in) / 3
+		b.AddAll(in[:k:k]).AddAll(in[k:])
+	} else {
+		b.AddAll(in)
+	}
+	if c.Caller != 0 {
+		bogus := modbus.Field{Name: "not-added", ServerAddress: "bogus:1", UnitID: 99, Address: 4242, Type: modbus.FieldTypeUint64}
+		if c.Target < 4 {
+			bogus.Type = modbus.FieldTypeCoil
+		}
+		for i := range in {
+			in[i] = bogus
+		}
+		in = append(in, bogus, bogus)
+		return buildTarget(b, c.Target)
+	}
 	// a builder may be asked for several kinds of requests: building another target first must not change what this
 	// target gets (and must not modify the caller's field slice)
 	if c.Target%3 != 0 {
@@ -322,6 +344,7 @@ func genBatch(t *rapid.T) batchCase {
 			c.Fields = append(c.Fields, f)
 		}
 	}
+	c.Caller = rapid.SampledFrom([]int{0, 0, 0, 1, 2}).Draw(t, "caller")
 	return c
 }
 
